@@ -111,6 +111,21 @@ theorem C06_renumber (t : List KV) (m : VMap) (h : parseTree false t = .ok m) : 
     rw [← h]
     exact assignIds_injective raw
 
+/-- **… and changes nothing else.** Id allocation (either mode) leaves every non-id field of the
+parsed map alone: visgroup tree, worldspawn and entities (keys, fixups, outputs, brushes, faces,
+displacements) are equal once ids are erased; an empty logical position becomes `[0 <new id>]` as in
+the constructor; without `preserve_ids` no group block is lost (fresh ids never collide in the
+`groups` dict). Together with `C06_renumber`: a consistent (injective) renumbering and nothing more. -/
+theorem C06_renumber_content (p : Bool) (t : List KV) (raw : VMap) (h : parseRaw t = .ok raw) :
+    ∃ m, parseTree p t = .ok m ∧
+      eraseVisL m.vis = eraseVisL raw.vis ∧ eraseEnt m.spawn = eraseEnt raw.spawn ∧
+      m.ents.map eraseEnt = raw.ents.map eraseEnt ∧
+      (p = false → m.groups.map eraseGroup = raw.groups.map eraseGroup) ∧
+      m.cams = raw.cams ∧ m.cordons = raw.cordons ∧ m.views = raw.views := by
+  refine ⟨assignIds p raw, by simp [parseTree, h, Except.map], ?_⟩
+  obtain ⟨h1, h2, h3, h4, h5, h6, h7, _, _⟩ := assignIds_content p raw
+  exact ⟨h1, h2, h3, h4, h5, h6, h7⟩
+
 /-- … and with `preserve_ids=True` nothing is renumbered unless an id is the marker -1. -/
 theorem C06_preserve (m : VMap) (h : IdsOK m) :
     assignIds true m = { m with spawn := fixLogical m.spawn, ents := m.ents.map fixLogical } :=
